@@ -74,7 +74,8 @@ def build_csr(cells, unsorted=True):
     return data, indices, indptr, was_unsorted
 
 
-HISTORIES = ('none', 'sort_order:sample', 'sort_order:observation', 'copy', 'filter-all:sample', 'transpose-twice', 'read-accessors')
+HISTORIES = ('none', 'sort_order:sample', 'sort_order:observation', 'copy', 'filter-all:sample', 'transpose-twice', 'read-accessors',
+             'relabel-rotate')
 
 
 def apply_history(t, atm, h):
@@ -97,6 +98,18 @@ def apply_history(t, atm, h):
         t2 = t.transpose().transpose()
         a2 = atm.copy()
         a2.type = None          # transpose does not carry the type over
+    elif h == 'relabel-rotate':
+        # in-place renaming on both axes whose new names are a rotation of the old ones: same id set, every position changes its name
+        a2 = atm.copy()
+        for ax in ('observation', 'sample'):
+            ids = list(atm.ids(ax))
+            new = ids[1:] + ids[:1]
+            t.update_ids(dict(zip(ids, new)), axis=ax, inplace=True)
+            if ax == 'observation':
+                a2.obs_ids = new
+            else:
+                a2.samp_ids = new
+        t2 = t
     elif h == 'read-accessors':
         t.nnz
         list(t.iter(axis='sample'))
